@@ -24,6 +24,11 @@ RULE = (
     "integer shifts are additionally handed over as numpy/torch float64/32/16(/bfloat16) and int64/32/16/8 vectors (every accepted form); two thirds of the projection cases, half of the chain cases and "
     "two thirds of the in-situ cases first make 1-4 public calls that are rejected with an exception (probe setter with wrong ROI / ndim / mode count, invalid constraint keys, masks, thicknesses, "
     "reconstruct() with bad arguments, ...), catch it, check that mode count / shapes / raw values are unchanged and then judge the same identities; "
+    "half of the projection / chain cases and 60% of the in-situ cases carry a user detector mask (dead column / row, beam stop, dead pixels, half plane, edge band; at construction or through "
+    "the public setter, also between two reconstruct() calls) and the projection is judged on the pixels the user did not exclude; a quarter of the adjoint cases use realistic sizes (object 30..256 px, "
+    "8..80 patches of 12..48 px), 70% of them non-zero-mean patch values, and the adjoint identity is additionally judged pixel by pixel (single-pixel objects) for complex64 / complex128 / float32 "
+    "patches; the operator calls of ~40% of the direct cases and some chain / in-situ cases run under process-global torch state a user may have set (use_deterministic_algorithms(True), no_grad, "
+    "inference_mode, default dtype float64), restored afterwards; "
     "non-trivial = non-zero shift / thickness with phase >= 0.5 rad / >= 1 repeated index / measured != predicted amplitudes / raw object off the unit circle by >= 0.5; "
     "distinct = (operator, ROI parity+squareness, modes, dtype/backend or object type)"
 )
@@ -33,6 +38,9 @@ ASSUMPTIONS = [
     "energy of a sub-pixel translation is judged on complex arrays (for real input the library returns the real part, which is not unitary at the Nyquist frequency)",
     "projection inputs have a predicted far field >= 0.5 (the mixed-state code adds eps=1e-9 and maps exact zeros of the prediction to zero); measured amplitudes contain exact zeros; in situ the mixed-state projection is judged where the predicted amplitude is >= 1e-3",
     "the amplitudes produced by the projection are read in the detector layout, i.e. through DetectorPixelated.forward (zero frequency at n//2), the layout of the measured data",
+    "with a non-trivial dset.detector_mask the projected amplitudes are compared with the measured ones only where the mask is 1 (read in the detector layout); on the unchanged tree the projection ignores the mask, an implementation that leaves excluded pixels at their predicted values satisfies the same check",
+    "per-pixel adjoint identity: |sum_patches(P)[p] - float64 sum of the patch values extracted from p| <= tol * sum of their magnitudes (1e-4 for 32-bit, 1e-10 for 64-bit patches; measured 1.2e-7 / 2e-16), pixels no patch covers are exactly zero",
+    "process-global torch state is varied only around the operator calls (scenes are built in the default state) and always restored; in situ only use_deterministic_algorithms(True) is used",
     "in-situ events whose inputs are not finite (optimiser diverged) are counted, not judged; pure-phase conservation is judged with apply_fov_mask and identical_slices off",
 ]
 BUDGET = {"quick": {"soft_s": 110, "workers": 14}, "thorough": {"soft_s": 800, "workers": 14}}
@@ -242,12 +250,76 @@ def _orig(f):
     return getattr(f, "__vf_wrapped__", f)
 
 
+GLOBAL_STATES = ("default", "default", "default", "deterministic", "no_grad", "default_float64", "default", "deterministic", "inference_mode", "default")
+
+
+class _global_state:
+    """Process-global torch state a user may have set before calling the library; always restored."""
+
+    def __init__(self, ctx, name):
+        self.ctx, self.name, self.cm = ctx, name, None
+
+    def __enter__(self):
+        torch = self.ctx.state["torch"]
+        self.prev_det = torch.are_deterministic_algorithms_enabled()
+        self.prev_warn = torch.is_deterministic_algorithms_warn_only_enabled()
+        self.prev_dtype = torch.get_default_dtype()
+        self.ctx.state["gs"] = self.name
+        if self.name == "deterministic":
+            torch.use_deterministic_algorithms(True)
+        elif self.name == "no_grad":
+            self.cm = torch.no_grad()
+        elif self.name == "inference_mode":
+            self.cm = torch.inference_mode()
+        elif self.name == "default_float64":
+            torch.set_default_dtype(torch.float64)
+        if self.cm is not None:
+            self.cm.__enter__()
+        self.ctx.count("global_state:" + self.name)
+        return self
+
+    def __exit__(self, *exc):
+        torch = self.ctx.state["torch"]
+        try:
+            if self.cm is not None:
+                self.cm.__exit__(*exc)
+        finally:
+            torch.use_deterministic_algorithms(self.prev_det, warn_only=self.prev_warn)
+            torch.set_default_dtype(self.prev_dtype)
+            self.ctx.state["gs"] = "default"
+        return False
+
+
+def _detector_mask(rng, roi):
+    """a user detector mask (1 = used, 0 = excluded): dead column / row, beam stop, dead pixels, half plane; not fftshift-invariant in general."""
+    h, w = roi
+    m = np.ones((h, w), np.float32)
+    kind = ["dead_column", "dead_row", "beam_stop", "dead_pixels", "half_plane", "edge_band"][int(rng.integers(6))]
+    if kind == "dead_column":
+        m[:, int(rng.integers(w))] = 0
+    elif kind == "dead_row":
+        m[int(rng.integers(h)), :] = 0
+    elif kind == "beam_stop":
+        yy, xx = np.meshgrid(np.arange(h) - (h // 2 + rng.integers(-2, 3)), np.arange(w) - (w // 2 + rng.integers(-2, 3)), indexing="ij")
+        m[yy**2 + xx**2 <= float(rng.uniform(1.0, max(2.0, min(h, w) / 4.0))) ** 2] = 0
+    elif kind == "dead_pixels":
+        m[rng.random((h, w)) < 0.15] = 0
+    elif kind == "half_plane":
+        m[: int(rng.integers(1, max(2, h // 2)))] = 0
+    else:
+        m[:, : int(rng.integers(1, max(2, w // 4)))] = 0
+    if m.sum() < 4:
+        m[:] = 1
+        m[0, 0] = 0
+    return m, kind
+
+
 def _judge_projection(ctx, pt, meas, overlap, res, where, insitu=False):
     """|F(Pi x)| read in the detector layout equals the measured amplitudes; Pi(Pi x) = Pi x."""
     torch = ctx.state["torch"]
     M = int(overlap.shape[0])
     c64 = overlap.dtype == torch.complex64
-    f = dict(operator="projection", where=where, dtype=str(overlap.dtype).replace("torch.", ""), parity=_parity(overlap.shape[-2:]), modes="single" if M == 1 else "mixed")
+    f = dict(global_state=ctx.state.get("gs", "default"), operator="projection", where=where, dtype=str(overlap.dtype).replace("torch.", ""), parity=_parity(overlap.shape[-2:]), modes="single" if M == 1 else "mixed")
     det = pt.detector_model.forward(res)
     amp = torch.sqrt(det.detach().double())
     m64 = meas.detach().double()
@@ -263,6 +335,14 @@ def _judge_projection(ctx, pt, meas, overlap, res, where, insitu=False):
         if not bool(sel.any()):
             return
     err = (amp - m64).abs()
+    # a user detector mask excludes pixels from the data; the claim is judged on the pixels the user did not exclude (detector layout)
+    dmask = getattr(pt.dset, "detector_mask", None)
+    if dmask is not None and tuple(dmask.shape) == tuple(err.shape[-2:]) and bool((dmask != 1).any()):
+        used = (dmask.detach().double() == 1).expand_as(err)
+        f["detector_mask"] = "user"
+        sel = used if sel is None else (sel & used)
+        if not bool(sel.any()):
+            return
     if sel is not None:
         err = err[sel]
     b_amp = T32 if c64 else (T64 if M == 1 else 1e-6)
@@ -272,7 +352,7 @@ def _judge_projection(ctx, pt, meas, overlap, res, where, insitu=False):
     sc2 = float(res.detach().abs().max())
     if sc2 > 0:
         d = (res2 - res).detach().abs()
-        if sel is not None and insitu:
+        if sel is not None and (insitu or f.get("detector_mask") == "user"):
             # compare in Fourier space where judged
             F1 = torch.fft.fftshift(torch.fft.fft2(res.detach(), norm="ortho"), dim=(-2, -1))
             F2 = torch.fft.fftshift(torch.fft.fft2(res2.detach(), norm="ortho"), dim=(-2, -1))
@@ -312,7 +392,7 @@ def _run_translate(spec, idx, ctx):
     x = (rng.normal(size=(M, h, w)) + 1j * rng.normal(size=(M, h, w))) * 10.0 ** rng.uniform(-3, 3)
     xmax = float(np.abs(x).max())
     conv = (lambda a: a) if backend == "np" else (lambda a: torch.tensor(a))
-    f = dict(operator="translate", where="direct", dtype="complex128", backend=backend, parity=_parity((h, w)))
+    f = dict(global_state=ctx.state.get("gs", "default"), operator="translate", where="direct", dtype="complex128", backend=backend, parity=_parity((h, w)))
     y = pu.fourier_shift_expand(conv(x), conv(s))
     yn = _np(y)
     ctx.check(yn.shape == (B, M, h, w) and yn.dtype == np.complex128, "translation_shape_dtype", "output %s %s for input %s, %d positions" % (yn.shape, yn.dtype, x.shape, B), **f)
@@ -415,7 +495,7 @@ def _run_propagate(spec, idx, ctx):
     z1, z2 = (float(10 ** rng.uniform(-1, np.log10(50.0))) for _ in range(2))
     th = np.array([z1, z2, z1 + z2, -z1, -z2, -(z1 + z2)])
     P = pm._compute_propagator_arrays(samp, len(th) + 1, th)
-    f = dict(operator="propagate", where="direct", dtype=str(P.dtype).replace("torch.", ""), parity=_parity((h, w)), tilted=tilted)
+    f = dict(global_state=ctx.state.get("gs", "default"), operator="propagate", where="direct", dtype=str(P.dtype).replace("torch.", ""), parity=_parity((h, w)), tilted=tilted)
     if not ctx.check(tuple(P.shape) == (6, h, w) and P.is_complex(), "propagator_shape_dtype", "propagators %s %s for roi %s and 6 thicknesses" % (tuple(P.shape), P.dtype, (h, w)), **f):
         return
     Pn = _np(P).astype(np.complex128)
@@ -460,11 +540,18 @@ def _run_adjoint(spec, idx, ctx):
     H, W = int(rng.integers(6, 40)), int(rng.integers(6, 40))
     B = int(rng.integers(1, 7))
     arbitrary = spec["i"] % 4 == 3
+    large = spec["i"] % 4 == 2  # realistic sizes: object 30..256 px, 8..80 patches of 12..48 px
+    if large:
+        S = int(rng.integers(1, 3))
+        H, W = int(rng.integers(30, 257)), int(rng.integers(30, 257))
+        B = int(rng.integers(8, 81))
     if arbitrary:
         h, w = int(rng.integers(2, 12)), int(rng.integers(2, 12))
         idx_np = rng.integers(0, H * W, size=(B, h, w))
     else:
         h, w = int(rng.integers(2, H + 3)), int(rng.integers(2, W + 3))  # patches may be larger than the object: wrap-around with self-overlap
+        if large:
+            h, w = int(rng.integers(12, 49)), int(rng.integers(12, 49))
         r0 = rng.integers(-H, 2 * H, size=B)
         c0 = rng.integers(-W, 2 * W, size=B)
         if B > 1 and rng.random() < 0.5:
@@ -475,8 +562,14 @@ def _run_adjoint(spec, idx, ctx):
     it = torch.tensor(idx_np)
     On = rng.normal(size=(S, H, W)) + 1j * rng.normal(size=(S, H, W))
     Pn = rng.normal(size=(S, B, h, w)) + 1j * rng.normal(size=(S, B, h, w))
+    offset = 0.0
+    if rng.random() < 0.7:
+        # patch values of non-zero mean (probe intensities, exit waves of weak objects), not only zero-mean noise
+        offset = complex(rng.uniform(1, 10), rng.uniform(-10, 10)) * float(rng.choice([1.0, -1.0]))
+        Pn = Pn + offset
+    Pn = Pn * 10.0 ** rng.uniform(-2, 2)
     O, P = torch.tensor(On), torch.tensor(Pn)
-    f = dict(operator="adjoint", where="direct", repeats="yes" if repeats else "no", index_kind="arbitrary" if arbitrary else "patch")
+    f = dict(global_state=ctx.state.get("gs", "default"), operator="adjoint", where="direct", repeats="yes" if repeats else "no", index_kind="arbitrary" if arbitrary else "patch")
     G = st["om"].ObjectBase._get_obj_patches(None, O, it)
     if not ctx.check(tuple(G.shape) == (S, B, h, w), "gather_shape", "_get_obj_patches returned %s for indices %s" % (tuple(G.shape), tuple(it.shape)), **f):
         return
@@ -504,8 +597,27 @@ def _run_adjoint(spec, idx, ctx):
     # the precision the pipeline uses
     sc32 = torch.stack([pu.sum_patches(P[s].to(torch.complex64), it, (H, W)) for s in range(S)])
     ctx.close(abs(lhs - complex((O.conj() * sc32.to(torch.complex128)).sum())) / scale, T32, "scatter_not_adjoint", "complex64 patches", track="c64", dtype="complex64", **f)
-    ctx.nontrivial(("adjoint", "arb" if arbitrary else "patch", "wrap" if wraps else "nowrap", S, "rep" if repeats else "norep"), repeats > 0)
-    ctx.observe(obj=[S, H, W], patches=[B, h, w], repeats=repeats, wraps=wraps)
+    # the identity pixel by pixel (single-pixel objects e_p): sum_patches(P)[p] is the sum of the patch values extracted from p.
+    # Judged against a float64 accumulation, relative to the sum of the magnitudes that pixel receives (what bounds its rounding error)
+    flat = idx_np.reshape(-1)
+    for s_ in range(min(S, 2)):
+        v = Pn[s_].reshape(-1)
+        ref = np.bincount(flat, weights=v.real, minlength=H * W) + 1j * np.bincount(flat, weights=v.imag, minlength=H * W)
+        mag = np.bincount(flat, weights=np.abs(v), minlength=H * W)
+        hit = mag > 0
+        for dt, tol, tr in ((torch.complex64, T32, "c64"), (torch.complex128, T64, "c128")):
+            out = _np(pu.sum_patches(P[s_].to(dt), it, (H, W))).astype(np.complex128).reshape(-1)
+            g = dict(f, dtype=str(dt).replace("torch.", ""), test="per_pixel")
+            ctx.check(bool((out[~hit] == 0).all()), "scatter_not_adjoint", "pixels no patch covers are not zero", **g)
+            ctx.close(float((np.abs(out - ref)[hit] / mag[hit]).max()), tol, "scatter_not_adjoint",
+                      lambda: "per pixel: |sum_patches(P)[p] - sum of P over the patch elements extracted from p| / sum|P|, obj %s patches %s offset %s" % ((H, W), (B, h, w), offset), track="per_pixel:" + tr, **g)
+        # real-valued patches (probe overlap / normalisation maps are scattered as float32 intensities)
+        vr = np.abs(v) ** 2
+        refr = np.bincount(flat, weights=vr, minlength=H * W)
+        outr = _np(pu.sum_patches(torch.tensor(vr.reshape(B, h, w)).to(torch.float32), it, (H, W))).astype(np.float64).reshape(-1)
+        ctx.close(float((np.abs(outr - refr)[hit] / refr[hit]).max()) if bool((refr[hit] > 0).all()) else 0.0, T32, "scatter_not_adjoint", "per pixel, float32 intensities |P|^2", track="per_pixel:f32", **dict(f, dtype="float32", test="per_pixel"))
+    ctx.nontrivial(("adjoint", "arb" if arbitrary else "patch", "wrap" if wraps else "nowrap", S, "rep" if repeats else "norep", "large" if large else "small", "offset" if offset else "zero_mean", ctx.state.get("gs", "default")), repeats > 0)
+    ctx.observe(obj=[S, H, W], patches=[B, h, w], repeats=repeats, wraps=wraps, large=large, patch_offset=str(offset), global_state=ctx.state.get("gs", "default"))
 
 
 # ------------------------------------------------------------------------------------------------
@@ -523,7 +635,7 @@ def _run_detector(spec, idx, ctx):
     e = (np.abs(xn) ** 2).sum((0, 2, 3))
     for dt, tol in ((torch.complex128, T64), (torch.complex64, T32)):
         I = det.forward(torch.tensor(xn).to(dt))
-        f = dict(operator="detector", where="direct", dtype=str(dt).replace("torch.", ""), parity=_parity((h, w)), modes="single" if M == 1 else "mixed")
+        f = dict(global_state=ctx.state.get("gs", "default"), operator="detector", where="direct", dtype=str(dt).replace("torch.", ""), parity=_parity((h, w)), modes="single" if M == 1 else "mixed")
         if not ctx.check(tuple(I.shape) == (B, h, w) and not I.is_complex(), "detector_shape_dtype", "detector.forward returned %s %s" % (tuple(I.shape), I.dtype), **f):
             continue
         ctx.check(bool((I >= 0).all()), "detector_negative_intensity", "negative intensities", **f)
@@ -638,7 +750,11 @@ def _run_projection(spec, idx, ctx):
     roi = _scene_roi(rng, spec["i"])
     M = 1 if spec["i"] % 8 < 4 else int(rng.integers(2, 5))
     sc = scenes.make_scene(rng, roi=roi, num_modes=M, num_slices=1, gpts=(2, 3))
-    pt = scenes.build_library(sc, scenes.simulate_scene(sc), seed=int(rng.integers(1 << 30)))
+    dmask, dkind = _detector_mask(rng, roi) if (spec["i"] // 3) % 2 else (None, "default")
+    via_setter = dmask is not None and (spec["i"] // 6) % 2 == 1
+    pt = scenes.build_library(sc, scenes.simulate_scene(sc), seed=int(rng.integers(1 << 30)), detector_mask=None if via_setter else dmask)
+    if via_setter:
+        pt.dset.detector_mask = dmask  # installed later through the public setter
     h, w = roi
     B = int(rng.integers(1, 6))
     F = rng.uniform(0.5, 2.0, size=(M, B, h, w)) * np.exp(2j * np.pi * rng.random((M, B, h, w)))
@@ -651,12 +767,13 @@ def _run_projection(spec, idx, ctx):
     # two thirds of the cases: the same identities after public calls that were rejected with an exception and caught by the caller
     rejected = _rejected_calls(ctx, pt, rng, int(rng.integers(1, 4)), "direct_after_error") if spec["i"] % 3 else []
     where = "direct_after_error" if rejected else "direct"
+    st["stack"].enter_context(_global_state(ctx, GLOBAL_STATES[(spec["i"] // 2) % len(GLOBAL_STATES)]))
     for dt, rdt in ((torch.complex64, torch.float32), (torch.complex128, torch.float64)):
         x = torch.tensor(xn).to(dt)
         m = torch.tensor(meas).to(rdt)
         with torch.no_grad():
             res = pt.fourier_projection(m, x)
-            f = dict(operator="projection", where=where, dtype=str(dt).replace("torch.", ""), parity=_parity(roi), modes="single" if M == 1 else "mixed")
+            f = dict(global_state=ctx.state.get("gs", "default"), operator="projection", where=where, dtype=str(dt).replace("torch.", ""), parity=_parity(roi), modes="single" if M == 1 else "mixed")
             if not ctx.check(tuple(res.shape) == tuple(x.shape) and res.is_complex(), "projection_shape_dtype", "fourier_projection returned %s %s" % (tuple(res.shape), res.dtype), **f):
                 continue
             st["busy"] = True
@@ -664,8 +781,8 @@ def _run_projection(spec, idx, ctx):
                 _judge_projection(ctx, pt, m, x, res, where=where)
             finally:
                 st["busy"] = False
-    ctx.nontrivial(("projection", _par(roi), "single" if M == 1 else "mixed%d" % M, "after_error" if rejected else "fresh"), nz > 0)
-    ctx.observe(roi=list(roi), modes=M, batch=B, measured_zeros=nz, rejected_calls=rejected)
+    ctx.nontrivial(("projection", _par(roi), "single" if M == 1 else "mixed%d" % M, "after_error" if rejected else "fresh", dkind, ctx.state.get("gs", "default")), nz > 0)
+    ctx.observe(roi=list(roi), modes=M, batch=B, measured_zeros=nz, rejected_calls=rejected, detector_mask=dkind, mask_via_setter=bool(via_setter), global_state=ctx.state.get("gs", "default"))
 
 
 # ------------------------------------------------------------------------------------------------
@@ -686,8 +803,10 @@ def _run_chain(spec, idx, ctx):
     S, M = int(rng.integers(1, 5)), int(rng.integers(1, 5))
     roi = _scene_roi(rng, spec["i"] // 3)
     sc = scenes.make_scene(rng, obj_type=ot, num_slices=S, num_modes=M, roi=roi)
-    pt = scenes.build_library(sc, scenes.simulate_scene(sc), seed=int(rng.integers(1 << 30)))
-    f = dict(operator="chain", where="chain", obj_type=ot, dtype="complex64", parity=_parity(roi), modes="single" if M == 1 else "mixed")
+    dmask, dkind = _detector_mask(rng, roi) if (spec["i"] // 2) % 2 else (None, "default")
+    pt = scenes.build_library(sc, scenes.simulate_scene(sc), seed=int(rng.integers(1 << 30)), detector_mask=dmask)
+    st["stack"].enter_context(_global_state(ctx, ("default", "deterministic", "default", "default_float64", "default", "deterministic")[(spec["i"] // 4) % 6]))
+    f = dict(global_state=ctx.state.get("gs", "default"), operator="chain", where="chain", obj_type=ot, dtype="complex64", parity=_parity(roi), modes="single" if M == 1 else "mixed")
     with torch.no_grad():
         raw = pt.obj_model._obj
         scale = float(10.0 ** rng.uniform(-1, 1.5))
@@ -735,8 +854,8 @@ def _run_chain(spec, idx, ctx):
                 _judge_projection(ctx, pt, targets, overlap, res, where=f["where"], insitu=True)
             finally:
                 st["busy"] = False
-    ctx.nontrivial(("chain", ot, S, M, _par(roi), "after_error" if rejected else "fresh"), off_circle >= 0.5 and nfrac >= 1)
-    ctx.observe(scene=sc.describe(), raw_scale=scale, off_unit_circle=off_circle, fractional_positions=nfrac, batch=nb, rejected_calls=rejected)
+    ctx.nontrivial(("chain", ot, S, M, _par(roi), "after_error" if rejected else "fresh", dkind, ctx.state.get("gs", "default")), off_circle >= 0.5 and nfrac >= 1)
+    ctx.observe(scene=sc.describe(), raw_scale=scale, off_unit_circle=off_circle, fractional_positions=nfrac, batch=nb, rejected_calls=rejected, detector_mask=dkind, global_state=ctx.state.get("gs", "default"))
 
 
 def _run_insitu(spec, idx, ctx):
@@ -748,11 +867,17 @@ def _run_insitu(spec, idx, ctx):
     autograd = (i // 4) % 2 == 0
     S, M = int(rng.integers(1, 4)), int(rng.integers(1, 4))
     roi = _scene_roi(rng, i // 2)
-    sc, sc_h, pt, _mean_I = insitu.hostile_library(rng, obj_type=ot, num_slices=S, num_modes=M, roi=roi, corr=float(rng.choice([0.0, 0.5, 0.8])), obj_scale=float(10 ** rng.uniform(0, 1)), seed=int(rng.integers(1 << 30)))
+    # a user detector mask (dead column, beam stop, ...): at construction, or installed through the public setter between two reconstruct() calls
+    dmask, dkind = _detector_mask(rng, roi) if rng.random() < 0.6 else (None, "default")
+    mask_late = dmask is not None and rng.random() < 0.3
+    sc, sc_h, pt, _mean_I = insitu.hostile_library(rng, obj_type=ot, num_slices=S, num_modes=M, roi=roi, corr=float(rng.choice([0.0, 0.5, 0.8])), obj_scale=float(10 ** rng.uniform(0, 1)), seed=int(rng.integers(1 << 30)),
+                                                   detector_mask=None if mask_late else dmask)
+    gs = "deterministic" if i % 5 == 4 else "default"
+    st["stack"].enter_context(_global_state(ctx, gs))
     J = pt.dset.num_gpts
     bs = int(rng.integers(1, J + 1))
     lr_o, lr_p = float(10 ** rng.uniform(-1, 1)), float(10 ** rng.uniform(-2, 0.3))
-    L = _live(ctx, pt, sc, "insitu_autograd" if autograd else "insitu_analytic")
+    L = _live(ctx, pt, sc, ("insitu_autograd" if autograd else "insitu_analytic") + ("" if gs == "default" else "+" + gs))
     raw0 = _np(pt.obj_model._obj)
     off_circle = float(np.abs(np.abs(raw0) - 1).max()) if ot != "potential" else float(np.abs(raw0).max())
     before = {k: ctx.counters.get(k, 0) for k in ("eval:pure_phase_intensity_not_conserved", "eval:projection_amplitude_mismatch", "eval:translation_energy", "eval:detector_parseval")}
@@ -766,13 +891,15 @@ def _run_insitu(spec, idx, ctx):
         insitu.run_hostile(pt, num_iters=n_it - 2, lr_obj=lr_o, lr_probe=lr_p, batch_size=bs, autograd=autograd, opt="adam" if autograd else "sgd")
         if i % 3:
             rejected += _rejected_calls(ctx, pt, rng, int(rng.integers(1, 3)), L["where"])
+        if mask_late:
+            pt.dset.detector_mask = dmask
         insitu.run_hostile(pt, num_iters=2, lr_obj=lr_o, lr_probe=lr_p, batch_size=bs, autograd=autograd, opt="adam" if autograd else "sgd")
     finally:
         st["live"] = None
     ctx.count("insitu_cases_completed")
     fired = {k.replace("eval:", ""): ctx.counters.get(k, 0) - v for k, v in before.items()}
-    ctx.nontrivial(("insitu", ot, S, M, _par(roi), "ad" if autograd else "gd", "after_error" if rejected else "fresh"), off_circle >= 0.5 and sum(fired.values()) > 0)
-    ctx.observe(scene=sc.describe(), rejected_calls=rejected, autograd=autograd, batch=bs, lr=[lr_o, lr_p], monitor_events=fired, final_loss=float(pt.iter_losses[-1]) if len(pt.iter_losses) else None,
+    ctx.nontrivial(("insitu", ot, S, M, _par(roi), "ad" if autograd else "gd", "after_error" if rejected else "fresh", dkind, gs), off_circle >= 0.5 and sum(fired.values()) > 0)
+    ctx.observe(scene=sc.describe(), detector_mask=dkind, mask_installed_late=bool(mask_late), global_state=gs, rejected_calls=rejected, autograd=autograd, batch=bs, lr=[lr_o, lr_p], monitor_events=fired, final_loss=float(pt.iter_losses[-1]) if len(pt.iter_losses) else None,
                 max_raw_obj=float(np.abs(_np(pt.obj_model._obj)).max()))
 
 
@@ -780,10 +907,17 @@ RUN = {"translate": _run_translate, "propagate": _run_propagate, "adjoint": _run
 
 
 def run_case(spec, idx, ctx):
+    import contextlib
+
     ctx.state["live"] = None
     ctx.state["busy"] = False
-    with np.errstate(all="ignore"):
-        RUN[spec["kind"]](spec, idx, ctx)
+    ctx.state["gs"] = "default"
+    kind = spec["kind"]
+    with contextlib.ExitStack() as stack, np.errstate(all="ignore"):
+        ctx.state["stack"] = stack  # scene kinds enter their global state after the scene is built (enter_context), left here
+        if kind in ("translate", "propagate", "adjoint", "detector"):
+            stack.enter_context(_global_state(ctx, GLOBAL_STATES[(spec["i"] // 4) % len(GLOBAL_STATES)]))
+        RUN[kind](spec, idx, ctx)
 
 
 def summarize(all_cases, counters, extras):
